@@ -46,8 +46,8 @@ def run(rep, tier):
     # plain operand's graph is GeometryGraph::new(idx, GeometryCow::from(self)) - what prepare_geometry builds too (rule shared with C01)
     from . import c01
     from ..report import Alias
-    rep.rule("R17.5", "no Relate impl overrides relate() and every plain operand's graph is GeometryGraph::new(idx, GeometryCow::from(self)): a plain operand and its PreparedGeometry are related by the same pipeline (C01 R1.1)")
-    c01.uniform_dispatch(Alias(rep, "R17.5", " - relate() on the plain geometry and on its PreparedGeometry can then differ"), F)
+    rep.rule("R17.8", "no Relate impl overrides relate() and every plain operand's graph is GeometryGraph::new(idx, GeometryCow::from(self)): a plain operand and its PreparedGeometry are related by the same pipeline (C01 R1.1)")
+    c01.uniform_dispatch(Alias(rep, "R17.8", " - relate() on the plain geometry and on its PreparedGeometry can then differ"), F)
 
 
 def freshness(rep, F):
@@ -283,7 +283,7 @@ def cached_fields(rep, F):
         rep.bad("R17.5", "anchor", str(e))
 
 
-def candidate_pairs(rep, F, rule="R17.4"):
+def candidate_pairs(rep, F, rule="R17.7"):
     """The edge-set intersector that both plain and prepared operands are noded by: every candidate pair the segment index reports is handed to
     SegmentIntersector::add_intersections with the edges of the graph it came from - between two graphs without any filter (whether or not
     the two graphs share one cached index, e.g. prepared.relate(&prepared)), within one graph with the single documented exception
